@@ -83,19 +83,21 @@ def calls_in(func_node, nested=True):
     return [n for n in it if isinstance(n, ast.Call)]
 
 
+def _is_noop(st):
+    """docstrings, bare constants (`...`) and `pass` have no effect"""
+    return isinstance(st, ast.Pass) or (isinstance(st, ast.Expr) and isinstance(st.value, ast.Constant))
+
+
 def first_stmt(func_node):
-    """First statement of a function body, skipping the docstring."""
-    body = func_node.body
-    if body and isinstance(body[0], ast.Expr) and isinstance(body[0].value, ast.Constant) \
-            and isinstance(body[0].value.value, str):
-        body = body[1:]
+    """First effective statement of a function body (docstring / no-op statements skipped)."""
+    body = [st for st in func_node.body if not _is_noop(st)]
     return body[0] if body else None
 
 
 def body_nodoc(func_node):
-    body = func_node.body
-    if body and isinstance(body[0], ast.Expr) and isinstance(body[0].value, ast.Constant) \
-            and isinstance(body[0].value.value, str):
+    """Function body without the docstring and without leading no-op statements."""
+    body = list(func_node.body)
+    while body and _is_noop(body[0]):
         body = body[1:]
     return body
 
